@@ -38,6 +38,7 @@ type Style struct {
 	EmptyAnn         int    // >0: every EmptyAnn-th value without rules and note gets an empty "//" annotation
 	AutoNotes        int    // >0: every AutoNotes-th value without a note of its own gets one
 	JoinLines        bool   // several properties on one line and one-line containers where no annotation is involved (ignored when comments or empty annotations are on)
+	StrayNotes       int    // >0: every StrayNotes-th opportunity gets a note that belongs to no value: on a line of its own between properties / items, or after the closing brace of a non-empty object
 	NoteNextLine     bool   // note-only annotations of values that no comma follows go to the next line (every other one)
 	BlankLines       bool   // blank lines between properties
 	SpaceBeforeColon bool
@@ -53,15 +54,17 @@ var Joins, JoinsArrayThenContainer int64
 func DefaultStyle() *Style { return &Style{NL: "\n", Indent: "  "} }
 
 type printer struct {
-	b       []byte
-	st      *Style
-	cc      int  // comment counter
-	ea      int  // empty-annotation counter
-	an      int  // auto-note counter
-	hn      int  // enum head-note counter
-	nn      int  // next-line-note counter
-	ann     int  // annotation counter (MixedAnn)
-	inMulti bool // inside a /* */ annotation
+	b        []byte
+	st       *Style
+	cc       int  // comment counter
+	ea       int  // empty-annotation counter
+	an       int  // auto-note counter
+	hn       int  // enum head-note counter
+	nn       int  // next-line-note counter
+	sn       int  // stray-note counter
+	afterArr bool // a non-empty array was closed and no value has begun since (annotations are not taken there)
+	ann      int  // annotation counter (MixedAnn)
+	inMulti  bool // inside a /* */ annotation
 }
 
 // PrintSchema renders n and fills Begin/End/AnnBegin/KeyBegin/KeyEnd and rule offsets.
@@ -71,6 +74,7 @@ func PrintSchema(n *ref.SNode, st *Style) []byte {
 	}
 	p := &printer{st: st}
 	p.leadingComments(0)
+	p.stray(0)
 	p.node(n, 0, false)
 	return p.b
 }
@@ -88,7 +92,8 @@ func (p *printer) leadingComments(level int) {
 		p.cc++
 		if p.cc%2 == 1 {
 			p.indent(level)
-			p.w("# user comment")
+			// every third one is an empty comment: "#" directly followed by the line end
+			p.w([]string{"# user comment", "#", "# "}[(p.cc/2)%3])
 			p.w(p.st.NL)
 		}
 		if p.st.Comments >= 2 && p.cc%3 == 0 {
@@ -106,11 +111,52 @@ func (p *printer) leadingComments(level int) {
 	}
 }
 
+// stray writes a note on a line of its own. No value starts on such a line, so the note is nobody's.
+// The library takes annotations on lines of their own only in some places (before the first child
+// of a container, between the items of an array, before a closing bracket - and never directly
+// after the closing bracket of a non-empty array); the callers keep to those.
+func (p *printer) stray(level int) {
+	// ... and only after a line that carries no annotation or comment itself (what may follow an
+	// annotation on the next line depends on its form)
+	end := len(p.b)
+	for end > 0 && (p.b[end-1] == '\n' || p.b[end-1] == '\r') {
+		end--
+	}
+	start := end
+	for start > 0 && p.b[start-1] != '\n' && p.b[start-1] != '\r' {
+		start--
+	}
+	if prev := string(p.b[start:end]); strings.Contains(prev, "//") || strings.Contains(prev, "/*") || strings.Contains(prev, "*/") || strings.Contains(prev, "#") {
+		return
+	}
+	if p.st.StrayNotes > 0 && p.st.EmptyAnn == 0 && !p.afterArr {
+		p.sn++
+		if p.sn%p.st.StrayNotes == 0 {
+			p.indent(level)
+			p.w([]string{"// stray note", "/* stray note */", "// stray - note"}[(p.sn/p.st.StrayNotes)%3])
+			p.w(p.st.NL)
+		}
+	}
+}
+
+func nonEmptyArray(n *ref.SNode) bool { return n.Kind == ref.SArr && len(n.Items) > 0 }
+
+// strayAfterBrace writes a note after the closing brace of a non-empty object: no value starts on
+// that line, so it is nobody's note.
+func (p *printer) strayAfterBrace() {
+	if p.st.StrayNotes > 0 && !p.afterArr {
+		p.sn++
+		if p.sn%p.st.StrayNotes == 0 {
+			p.w(" // stray after brace")
+		}
+	}
+}
+
 func (p *printer) eolComment() {
 	if p.st.Comments >= 3 {
 		p.cc++
 		if p.cc%2 == 0 || p.st.Comments == 4 {
-			p.w(" # eol comment")
+			p.w([]string{" # eol comment", " #", " # eol comment"}[p.cc%3])
 		}
 	}
 }
@@ -283,6 +329,8 @@ func (p *printer) ruleValue(r *ref.SRule, spread bool, level int) {
 // written indentation and, for properties, the key). comma: a comma follows the value.
 func (p *printer) node(n *ref.SNode, level int, comma bool) {
 	n.Begin = len(p.b)
+	p.afterArr = false
+	n.NoteDetached = false
 	c := ""
 	if comma {
 		c = ","
@@ -304,6 +352,7 @@ func (p *printer) node(n *ref.SNode, level int, comma bool) {
 			if p.nn%2 == 1 {
 				p.w(p.st.NL)
 				p.indent(level)
+				n.NoteDetached = true // no value starts on that line: the note is nobody's
 			}
 		}
 		p.annotation(n, level)
@@ -339,6 +388,9 @@ func (p *printer) node(n *ref.SNode, level int, comma bool) {
 			} else {
 				p.w(p.st.NL)
 				p.leadingComments(level + 1)
+				if i == 0 {
+					p.stray(level + 1)
+				}
 				p.indent(level + 1)
 			}
 			pr.KeyBegin = len(p.b)
@@ -352,10 +404,16 @@ func (p *printer) node(n *ref.SNode, level int, comma bool) {
 		}
 		p.w(p.st.NL)
 		p.leadingComments(level)
+		if !nonEmptyArray(n.Props[len(n.Props)-1].Val) {
+			p.stray(level)
+		}
 		p.indent(level)
 		n.End = len(p.b)
 		p.w("}")
 		p.w(c)
+		if !nonEmptyArray(n.Props[len(n.Props)-1].Val) {
+			p.strayAfterBrace()
+		}
 	case ref.SArr:
 		p.w("[")
 		if len(n.Items) == 0 {
@@ -371,21 +429,28 @@ func (p *printer) node(n *ref.SNode, level int, comma bool) {
 		p.w(p.st.NL)
 		for i, it := range n.Items {
 			p.leadingComments(level + 1)
+			if i == 0 || !nonEmptyArray(n.Items[i-1]) {
+				p.stray(level + 1)
+			}
 			p.indent(level + 1)
 			p.node(it, level+1, i < len(n.Items)-1)
 			p.w(p.st.NL)
 		}
 		p.leadingComments(level)
+		if !nonEmptyArray(n.Items[len(n.Items)-1]) {
+			p.stray(level)
+		}
 		p.indent(level)
 		n.End = len(p.b)
 		p.w("]")
 		p.w(c)
+		p.afterArr = true
 	}
 }
 
 // joining: the JoinLines style is on and nothing else writes to the ends of lines.
 func (p *printer) joining() bool {
-	return p.st.JoinLines && p.st.Comments == 0 && p.st.EmptyAnn == 0 && p.st.AutoNotes == 0
+	return p.st.JoinLines && p.st.Comments == 0 && p.st.EmptyAnn == 0 && p.st.AutoNotes == 0 && p.st.StrayNotes == 0
 }
 
 func bareScalar(n *ref.SNode) bool {
